@@ -80,7 +80,7 @@ TraceSpec == TraceInit /\ [][TraceNext]_tvars
 
 (* the C03 / C05 statements of KeygenData evaluated on every state of every real run *)
 TraceInv ==
-  /\ SameView /\ OwnShareMatches /\ OnePolynomial /\ NoContributionDropped
+  /\ SameView /\ OwnShareMatches /\ OnePolynomialC /\ NoContributionDropped
   /\ HonestCompletes /\ NoSilentAccept /\ BlameExact
 
 ASSUME TLCSet(1, 0)
